@@ -442,8 +442,9 @@ def _input_arg_sites(schema):
 
 
 _INPUT_PAYLOADS = {
-    "Pt": {"x": 1, "y": 2, "tag": "t", "z": 3},
-    "Box": {"pt": {"x": 1, "tag": "t"}, "tags": ["a"], "shade": "RED"},
+    "Pt": {"x": 1, "y": 2, "tag": "t", "z": 3, "z_index": 4},
+    "Box": {"pt": {"x": 1, "tag": "t"}, "tags": ["a"], "shade": "RED",
+            "fill_color": "BLUE"},
 }
 
 
@@ -619,6 +620,12 @@ def run_machine(draws, state, tier):
         # 0 clone, 1 visibility, 2 camelcase, 3 chained, 4 extend, 5 use,
         # 6 schema directives (applied to a clone of the target)
         li = st.below(len(live), "target")
+        if op in (2, 3):
+            # a second renaming pass over an already renamed schema is the
+            # interesting one (python names must survive it)
+            ren = [i for i, l in enumerate(live) if l.renamed]
+            if ren and st.chance(1, 2, "rename_again"):
+                li = ren[st.below(len(ren), "renamed_target")]
         src = live[li]
         opname = ("clone", "visibility", "camelcase", "chained", "extend",
                   "use", "directives", "configure", "in-place")[op]
